@@ -1,4 +1,4 @@
-import QuiverModel.Lemmas.Sys.Sched
+import QuiverModel.Lemmas.Sys.Wake
 /-
 C04 — Messages: exactly-once, per-sender FIFO, and no lost wake-ups.
 
@@ -167,6 +167,87 @@ theorem quiescent_no_spawner_waiting (n : Nat) (prog : Prog) (req : Nat) (hn : 0
   · rw [(hidle w hw).2.1] at h1; simp at h1
   · rw [(hidle w hw).1] at h1; simp at h1
 
+/-- The wake-up invariant (`WInv`) after every choice sequence. -/
+theorem wakeup_invariant (n : Nat) (prog : Prog) (req : Nat) (hn : 0 < n) (hwf : ProgWF prog) (cs : List Choice) :
+    PreStart (reach n prog req cs) ∨ WInv (reach n prog req cs) :=
+  invariant_from_init Rules.current WInv (fun _ h => WInv.of_started h) (fun _ m h => h.micro m) n prog req hn hwf cs
+
+/-- **No lost wake-up.**  A process parked in `selecting` either has no ready source in its local
+state — no message in its mailbox that one of the select's receive sources accepts, no awaited
+target with a stored result or a recorded failure — or something that will re-queue it is in flight:
+a `DeliverMessage` or `UpdateAwaitResults` for it, or a link of its await chain (`AwaitAction`,
+`QueryAndAwait`, `ProcessResults`).  (Timeouts are woken by `check_expired_timeouts` at the next
+executor step; the quiescence detector treats a pending timeout as "not quiescent".) -/
+theorem no_lost_wakeup (n : Nat) (prog : Prog) (req : Nat) (hn : 0 < n) (hwf : ProgWF prog) (cs : List Choice)
+    (w : Wid) (p : Pid) (x : Proc) (hsel : p ∈ ((reach n prog req cs).wk w).selecting)
+    (hx : ((reach n prog req cs).wk w).procs p = some x) :
+    ¬ LocalReady (reach n prog req cs).prog x ∨ WakePending (reach n prog req cs) p := by
+  rcases wakeup_invariant n prog req hn hwf cs with h | h
+  · rw [(h.wk_idle w).2.1] at hsel; simp at hsel
+  · exact h.core.wake w p x hsel hx
+
+/-- Everything in flight that concerns a process sits in the queue of a real worker. -/
+theorem wakePending_not_idle {s : Sys} (h : WInv s) {p : Pid} (hp : WakePending s p) :
+    ∃ w, w < s.n ∧ (s.cmdQ w ≠ [] ∨ s.evtQ w ≠ []) := by
+  have hr := h.si.r
+  rcases hp with ⟨w, c, hc, hm⟩ | ⟨w, e, he, hm⟩
+  · refine ⟨w, ?_, Or.inl (List.ne_nil_of_mem hc)⟩
+    have hcok := hr.cmds w c hc
+    cases c with
+    | deliver t m => exact hr.wbound t w hcok
+    | updateAwait a rs => exact hr.wbound a w hcok
+    | queryAwait a ts =>
+      obtain ⟨t, ht⟩ := List.exists_mem_of_ne_nil ts (h.core.neQ w a ts hc)
+      exact hr.wbound t w (hcok.2 t ht)
+    | misc => simp [mentionsC] at hm
+    | start _ => simp [mentionsC] at hm
+    | resume _ _ => simp [mentionsC] at hm
+    | spawn _ _ _ => simp [mentionsC] at hm
+    | notifySpawn _ _ => simp [mentionsC] at hm
+    | getResult _ _ => simp [mentionsC] at hm
+  · refine ⟨w, ?_, Or.inr (List.ne_nil_of_mem he)⟩
+    have heok := hr.evts w e he
+    cases e with
+    | await a ts => exact hr.wbound a w heok.1
+    | procResults a rs =>
+      obtain ⟨tr, htr⟩ := List.exists_mem_of_ne_nil rs (h.core.neR w a rs he)
+      exact hr.wbound tr.1 w (heok.2 tr htr)
+    | spawn _ _ _ _ => simp [mentionsE] at hm
+    | deliver _ _ => simp [mentionsE] at hm
+    | resultResp _ _ => simp [mentionsE] at hm
+
+/-- … hence **the system never becomes idle while a blocked process has a ready source**: when all
+queues of all workers are empty, no process parked in a select has a ready source in its local
+state. -/
+theorem quiescent_no_blocked_ready (n : Nat) (prog : Prog) (req : Nat) (hn : 0 < n) (hwf : ProgWF prog) (cs : List Choice)
+    (hidle : (reach n prog req cs).idle) (w : Wid) (p : Pid) (x : Proc)
+    (hsel : p ∈ ((reach n prog req cs).wk w).selecting) (hx : ((reach n prog req cs).wk w).procs p = some x) :
+    ¬ LocalReady (reach n prog req cs).prog x := by
+  rcases wakeup_invariant n prog req hn hwf cs with h | h
+  · rw [(h.wk_idle w).2.1] at hsel; simp at hsel
+  · rcases h.core.wake w p x hsel hx with h1 | h1
+    · exact h1
+    · obtain ⟨w', hw', hne⟩ := wakePending_not_idle h h1
+      rcases hne with hne | hne
+      · exact absurd (hidle w' hw').1 hne
+      · exact absurd (hidle w' hw').2.1 hne
+
+/-- **Spawn pairing**: for every worker and process, the number of SpawnActions plus NotifySpawns
+in flight for it at that worker is 1 if it is parked in `spawning` and 0 otherwise: a NotifySpawn
+always finds its caller parked, and a parked spawner has exactly one reply coming. -/
+theorem spawn_pairing (n : Nat) (prog : Prog) (req : Nat) (hn : 0 < n) (hwf : ProgWF prog) (cs : List Choice)
+    (w : Wid) (c : Pid) :
+    ((reach n prog req cs).evtQ w).countP (isSpawnEvt c) + ((reach n prog req cs).cmdQ w).countP (isNotify c) =
+      if c ∈ ((reach n prog req cs).wk w).spawning then 1 else 0 := by
+  rcases wakeup_invariant n prog req hn hwf cs with h | h
+  · rw [h.evtQ w, (preStart_sched h w).2]
+    simp only [List.countP_nil, Nat.zero_add, List.not_mem_nil, if_false]
+    rw [List.countP_eq_zero]
+    intro c' hc'
+    have := (h.inert w c' hc').2.2 c
+    cases c' <;> simp_all [isNotify, cmdNotify]
+  · exact h.pair w c
+
 /-- `notify_spawn` re-queues the caller iff it was parked in `spawning` (and always hands it the
 pid): the handler on an arbitrary state. -/
 theorem notify_spawn_requeues_iff_parked (s : Sys) (i : Wid) (caller newPid : Pid) (x : Proc)
@@ -204,7 +285,14 @@ example : sel 1 0 (reach 2 exProg 1 exCs).sent = [{ src := 1, tag := 1, seq := 0
 example : sel 1 0 (reach 2 exProg 1 (exCs ++ [.worker 0 100 5 [] []])).appended = [{ src := 1, tag := 1, seq := 0 }]
     ∧ notifiedOf 0 (reach 2 exProg 1 (exCs ++ [.worker 0 100 5 [] []])).spawnNotified = [1] := by decide
 
-/-! ### the theorems depend on the two repairs (witnesses of the earlier rules) -/
+/-- a reachable state with a process parked in a select, nothing ready locally, and the message
+that will wake it in flight in its worker's command queue -/
+example :
+    let s := reach 2 exProg 1 [.worker 0 100 5 [] [], .env [100, 100], .worker 0 100 5 [] [], .worker 1 100 5 [] [], .env [100, 100]]
+    0 ∈ (s.wk 0).selecting ∧ ((s.wk 0).procs 0).map (·.mailbox) = some [] ∧
+    Cmd.deliver 0 { src := 1, tag := 1, seq := 0 } ∈ s.cmdQ 0 := by decide
+
+/-! ### the theorems depend on the repairs (witnesses of the earlier rules) -/
 
 /-- main: `c1 = @{ ! [50] }, c2 = @{ [2,0] me }, ! [c1, #recv], c3 = @{}, ! [c3]` -/
 def staleProg : Prog :=
